@@ -173,14 +173,17 @@ def seqAbstract (steps : List String) (ms : List String) : List String :=
 def uciOp (st : DriverState) (args : List String) : String :=
   match args with
   | kind :: seed :: ";" :: rest =>
-    if kind ≠ "plain" then "bad-op" else
+    if kind ≠ "plain" && kind ≠ "plain+used" then "bad-op" else
     match st.ztables.find? (fun e => e.1 == seed) with
     | none => "no-ztable"
     | some (_, za) =>
       let z := za.table
       let steps := (joinSp rest).splitOn " ;; "
       let initFen := "rnbqkbnr/pppppppp/8/8/8/8/PPPPPPPP/RNBQKBNR w KQkq - 0 1"
-      let u0 : UciM := { eng := (EngineM.reset z default initFen.toList).1 }
+      let e0 := (EngineM.reset z default initFen.toList).1
+      -- "plain+used": the driver is attached to an engine that has already played 1. e4 e5 through its own API
+      let e0 := if kind == "plain+used" then (EngineM.move z (EngineM.move z e0 "e2e4".toList).1 "e7e5".toList).1 else e0
+      let u0 : UciM := { eng := e0 }
       let sb0 : Option SBoard := (Spec.parseFen initFen).map fun sg => ⟨{ start := sg }, ["-"]⟩
       let stateM (u : UciM) : String := "state=" ++ (u.eng.position ++ " " ++ obsModel u.eng.w z 0).replace " " "_"
       let stateS (sb : Option SBoard) : String := match sb with
